@@ -94,9 +94,8 @@ CompleteTransition(c) ==
 RECURSIVE NakSeq(_, _, _, _, _)
 NakSeq(c, reqs, rest, max, eos) ==
   IF rest = <<>> THEN (IF reqs # <<>> THEN EmitD(c, MkNak(c, eos, reqs)) ELSE c)
-  ELSE LET r2 == Append(reqs, Head(rest)) IN
-       IF Len(r2) = max THEN NakSeq(EmitD(c, MkNak(c, eos, r2)), <<>>, Tail(rest), max, eos)
-       ELSE NakSeq(c, r2, Tail(rest), max, eos)
+  ELSE IF Len(reqs) = max THEN NakSeq(EmitD(c, MkNak(c, eos, reqs)), <<Head(rest)>>, Tail(rest), max, eos)
+  ELSE NakSeq(c, Append(reqs, Head(rest)), Tail(rest), max, eos)
 \* _deferred_lost_segment_handling
 Deferred(c, cfg) ==
   LET p == c.h.p IN
